@@ -216,6 +216,32 @@ def run(eng: Engine, ck: Check):
     ck.ob('R-C04-RESUME', iu, iu.node, 'upload offset is the value received from the downloader', ok,
           f'{[unparse(s) for s, _ in st]}', construct='upload offset source')
 
+    # the two integers of the negotiation travel outside any frame: the reader must take EXACTLY the width the writer sent
+    # (`readexactly`; a plain `read(n)` returns whatever segment arrived, the rest of the integer then becomes file content)
+    for rname, codec, fmt, width in (('receive_transfer_offset', 'uint64', 'Q', 8), ('receive_transfer_ticket', 'uint32', 'I', 4)):
+        rf_ = eng.func(CONN, f'PeerConnection.{rname}')
+        ck.visited(rf_)
+        exact = []
+        for f_ in eng.scope(rf_):
+            for x in calls_in(f_.node):
+                if call_name(x) == 'readexactly' and x.args:
+                    a0 = expand_aliases(f_, x.args[0])
+                    n_ = const(a0)
+                    if isinstance(a0, ast.Call) and call_name(a0) == 'calcsize' and a0.args and isinstance(const(a0.args[0]), str):
+                        n_ = {'Q': 8, 'I': 4, '<Q': 8, '<I': 4}.get(const(a0.args[0]))
+                    if isinstance(a0, ast.Attribute) and a0.attr == 'size' and codec in unparse(a0):
+                        n_ = width
+                    exact.append(n_)
+        partial = [unparse(x)[:50] for f_ in eng.scope(rf_) for x in calls_in(f_.node) if call_name(x) in ('read', 'receive_data', 'readline', 'readuntil')]
+        ck.ob('R-C04-RESUME', rf_, rf_.node, f'{rname} reads exactly {width} bytes (readexactly) before decoding: the value cannot be cut by TCP segmentation',
+              exact == [width] and not partial, f'readexactly widths {exact}; partial reads {partial}: a value delivered in two segments is decoded from its first bytes '
+              'and the rest is taken for file content', construct=f'{rname} exact width')
+        dec = [x for f_ in eng.scope(rf_) for x in calls_in(f_.node) if (call_name(x) == 'deserialize' and unparse(x.func.value) == codec) or
+               (call_name(x) in ('unpack', 'unpack_from') and any(const(a_) in (f'<{fmt}', fmt) for a_ in x.args)) or
+               (call_name(x) == 'from_bytes' and any(const(a_) == 'little' for a_ in list(x.args) + [k_.value for k_ in x.keywords]))]
+        ck.ob('R-C04-RESUME', rf_, rf_.node, f'{rname} decodes a little-endian {codec} (what the sender serialises)', len(dec) == 1, f'{[unparse(x) for x in dec]}',
+              construct=f'{rname} codec')
+
     # ---- R-C04-FAULT
     c = eng.cfg(df)
     hs = [n for n in c.nodes if n.kind == 'handler' and 'ConnectionReadError' in handler_type_names(n.ast)]
